@@ -73,7 +73,7 @@ def _cfg_tokens(case: dict) -> tuple[str, str]:
 
 
 def real_for_diff(case: dict, real: list[str]) -> list[str]:
-    return [ln for ln in real if ln != "stuck"]
+    return [ln for ln in real if ln != "stuck" and not ln.startswith("pendingscope ")]
 
 
 def model_input(case: dict, real: list[str]):
@@ -132,7 +132,9 @@ def _parse(real: list[str]) -> dict[str, Any]:
 
 
 _lost = {"n": 0}
-STRICT_CANCEL = os.environ.get("VERIF_C19_STRICT_CANCEL") == "1"
+# the statement says "cancelled at any point => every socket closed and the failure reported": judged by default;
+# VERIF_C19_STRICT_CANCEL=0 restores the old counting-only behaviour (debugging aid)
+STRICT_CANCEL = os.environ.get("VERIF_C19_STRICT_CANCEL", "1") != "0"
 
 
 def oracle(case: dict, real: list[str]) -> str | None:
@@ -165,7 +167,13 @@ def oracle(case: dict, real: list[str]) -> str | None:
             # are consistent (exactly the returned socket is open), so by default this tie is counted, not judged.
             _lost["n"] += 1
             if STRICT_CANCEL:
-                return (f"lost-cancel: the caller was cancelled during the connect, yet socket {w} was returned "
+                # known (open finding, root cause in CancelScope.__uncancel_task): EVERY cancellation of the caller arrived
+                # while a cancel request issued by a scope of the race was still outstanding on the task.  A cancellation
+                # that arrived with no scope request outstanding and was lost all the same is a different failure.
+                idx = [k for k, ln in enumerate(real) if ln == "cancel"]
+                raced = all(k + 1 < len(real) and real[k + 1].startswith("pendingscope ") for k in idx)
+                tag = "lost-cancel" if raced else "lost-cancel-no-scope-request-pending"
+                return (f"{tag}: the caller was cancelled during the connect, yet socket {w} was returned "
                         "(statement: cancelled at any point => every socket closed and the failure reported)")
     else:
         if opn:
@@ -226,7 +234,9 @@ def nontrivial(case: dict, real: list[str]) -> str | None:
 
 def known_key(case: dict, real: list[str], why: str) -> str:
     if why.startswith("lost-cancel:"):
-        return "lost-cancel"
+        return "lost-cancel,scope-cancel-request-outstanding"
+    if why.startswith("lost-cancel-no-scope-request-pending:"):
+        return "lost-cancel,clean"
     head = why.split(":")[0].split(" ")[0]
     return f"api={case.get('api', 'race')},why={head}"
 
